@@ -477,8 +477,10 @@ where
         V: FromStr<Err = E>,
         ParseErrorReason: From<E>,
     {
-        let num = self.next_parse()?;
-        let mut out = HashMap::with_capacity(num);
+        let num: usize = self.next_parse()?;
+        // `num` comes from the file: a count beyond the lines that follow must end in a parse error,
+        // not in a failed allocation
+        let mut out = HashMap::new();
         for _ in 0..num {
             // we add one so that comments are left a the end of the line.
             let parts = self.next_split_n(segments + 1)?;
